@@ -1,8 +1,9 @@
 CONFIG = {
     "id": "C03",
-    "coq_targets": ["Props/C03.v", "Model/SimCheck.v"],
+    "coq_targets": ["Model/SimSkeleton.v", "Gen/RunSkeleton.v", "Model/SimSkeletonInterp.v", "Proofs/RunSkeletonProofs.v",
+                    "Proofs/SimActiveFrame.v", "Proofs/RunSkeletonInterpProofs.v", "Props/C03.v", "Model/SimCheck.v"],
     "prop_files": ["Props/C03.v"],
-    "gen": [],
+    "gen": ["RunSkeleton"],
     "components": [{
         "name": "sim", "modules": ["Base.NumOps", "Model.Turn", "Model.Sim", "Model.SimCheck"],
         "check": "check_case", "monitor": "monitor_c03", "model_out": "monitor_detail",
@@ -18,7 +19,9 @@ CONFIG = {
             "ticks, LimboWaitHeal verdict), decision sequences of the "
             "script callbacks incl. invalid targets and ult requests, cycle limit 0-4, insert budget 0-12; distinct = "
             "distinct input term",
-    "trusted": ["hits of harness content are 'plain' (no DEF/RES/stance/shield/crit), so a hit's total is its flat damage; the "
+    "trusted": ["run loop, TRANSLATED from the Go source on every run (go2coq RunSkeleton -> Gen/RunSkeleton.v; types and pinned table Model/SimSkeleton.v; interpreter Model/SimSkeletonInterp.v; Proofs/RunSkeletonProofs.v, Proofs/RunSkeletonInterpProofs.v; theorem C03_run_skeleton_is_the_source): EVERY statement of EVERY function of pkg/simulation/run.go, action.go and death.go as an ordered step (emit with payload, call, bind, assignment, if / for / range / switch with the guard as normalised source text, return / tail call with the next state), plus the values of the integer constants they name; no statement is skipped, a statement or a nested effectful call outside the recognised shapes makes the translator fail closed (only listed effect-free queries may be nested in an expression). PINNED (table = hand-written expected table, reflexivity): all 22 functions - Run, initialize, startBattle, engage, beginTurn, phase1, action, phase2, endTurn, exitCheck, InsertAction, InsertAbility, InsertUlt, ultCheck, executeQueue, executeAction, executeUlt, executeInsert, clearActionTargets, deathCheck, kill, deathEvent. INTERPRETED (interpretation of the generated steps over the model's own state, outcome type and functions proved equal to the model for all cfg / fuel / states): engage, beginTurn, phase1, action, phase2, endTurn, and their chaining = Sim.one_turn (equal outcomes; equal traces on an error outcome), phase2+endTurn = Sim.phase2, engage = the battle-start drain of Sim.start",
+                'run loop, still HAND-WRITTEN / trusted under the translator tie: the denotation tables of Model/SimSkeletonInterp.v (which model function a call / event / guard text stands for: sim.deathCheck -> death_check, sim.Modifier.Tick(.., ModifierPhase1/2) -> run_slot LPhase1/LPhase2, sim.executeQueue -> execute_queue with phase < info.ActionEnd decided on the generated constants, sim.exitCheck -> exit_check, sim.executeAction -> execute_action, Turn.StartTurn / ResetTurn -> Model/Turn.v) and its no-counterpart list (the TurnStart and ActionEnd modifier ticks, createSnapshot, the enemy stance reset of phase1: identity in the model); the BODIES of exitCheck, executeQueue, ultCheck, executeAction / executeUlt / executeInsert, deathCheck / kill / deathEvent, initialize, startBattle, Run are pinned only (their model counterparts exit_check, drain, ult_check, execute_action, death_check / announce, start are shaped differently: fuel recursion, filters instead of index loops, units built in one step) and stay tied by correspondence; everything the called services do (turn manager, attribute service, modifier manager, queue, event system, character / enemy managers, IsValid / IsCharacter / onField / CanUseUlt / createSnapshot) is outside the three files; event payload texts are pinned but not interpreted',
+                "hits of harness content are 'plain' (no DEF/RES/stance/shield/crit), so a hit's total is its flat damage; the "
                 "damage formula itself is C04",
                 "listener scripts never open or close an attack bracket (legal use of the API, enforced by the model as a "
                 "distinct outcome and respected by the generator); they may add hits to an attack that is open",
@@ -29,9 +32,9 @@ CONFIG = {
                       "content scripts, all decision sequences, all fuel) produces a trace accepted by the lifecycle-protocol "
                       "stack automaton; the model's complete trace and result are compared exactly with the real simulator on "
                       "generated scripted battles, and the automaton is also run as a monitor on the real traces.",
-        "level_note": "Coq kernel; hand-written model Model/Sim.v tied by whole-trace correspondence; content is scripted harness "
+        "level_note": "go2coq RunSkeleton translator (run.go, action.go, death.go -> step table) + pinned table + interpreter Model/SimSkeletonInterp.v + kernel-checked equality with Sim.one_turn; " "Coq kernel; hand-written model Model/Sim.v tied by whole-trace correspondence; content is scripted harness "
                       "content registered through the exported Register functions; internal/* content is not modelled.",
-        "technique": "Coq proof (Hoare-style segment lemmas against a protocol automaton) + correspondence + trace monitor",
+        "technique": "source-to-Coq translation of the run loop into a step table, pinned and interpreted (state functions of a turn = Sim.one_turn) + " "Coq proof (Hoare-style segment lemmas against a protocol automaton) + correspondence + trace monitor",
         "design_ref": "DESIGN.md section 7, C03",
     },
 }
